@@ -72,6 +72,9 @@ func safePool() []interface{} {
 		arr(), arr(i64(1)), arr(i64(1), i64(2)), arr("a"), arr(i64(1), "a", nil), arr(arr(i64(1))), arr(f64(1)),
 		arr(tm(946684800, 5, 3600, "CET")), arr(obj("k", tm(946684800, 6, -7200, "X"))), arr(obj("k", arr(tm(0, 0, 0, "UTC")))),
 		obj(), obj("k", i64(1)), obj("k", i64(2)), obj("a", i64(1), "b", "x"), obj("k", obj("j", tm(1700000000, 1, 60, "Z1"))), obj("k", nil),
+		tm(946684800, 7, 3601, "odd"), // zone offset that is not a whole number of minutes
+		arr(obj("k", arr(obj("j", arr(tm(1700000000, 2, -3600, "W"), nil, i64(1)))))), // depth 5
+		obj("k", arr(arr(), obj(), "", nil)),
 	}
 }
 
@@ -717,7 +720,7 @@ func (g *Gen) make(k string, m *model.DB) Op {
 	case "Import":
 		target := g.pickColl(m, g.R.Chance(0.15))
 		if len(g.files) == 0 || g.R.Chance(0.25) {
-			kinds := []string{"missing", "dir", "empty", "truncated", "notarray", "scalars", "badid", "dupid"}
+			kinds := []string{"missing", "dir", "empty", "truncated", "notarray", "scalars", "badid", "dupid", "nullelem", "nonobject"}
 			g.nfiles++
 			return Op{K: k, Coll: target, File: fmt.Sprintf("bad%d.json", g.nfiles), FileKind: kinds[g.R.Intn(len(kinds))]}
 		}
